@@ -479,6 +479,7 @@ func c14History(c *Ctx, idx int) {
 				for _, cc := range victims {
 					time.Sleep(time.Duration(lr.Intn(300)) * time.Microsecond)
 					cc.cl.Close()
+					<-cc.cl.Closed() // its reader has ended: what it holds now is all it will ever hold
 				}
 			}()
 			for k := 0; k < n; k++ {
